@@ -295,9 +295,11 @@ def execute(plan, want_logs=False):
                             for key, arr in zip(keys, dr[1]):
                                 got = ev0[1].get("%s - %s" % (prefix, key))
                                 if got is None or not _close(np.asarray(got, dtype=float), np.asarray(arr, dtype=float)):
-                                    report("EVALUATE_FRAMES_DIFFER", "separation.evaluate:%s" % prefix,
-                                           "evaluate()['%s - %s'] = %s but the framewise function returns %s" % (
-                                               prefix, key, core.brief(got, 120), core.brief(arr, 120)))
+                                    # observation only: which keywords/defaults evaluate() uses for its framewise
+                                    # entries is the business of C03 ("evaluate() is the documented bundle"), not
+                                    # of the sentence of C19 claimed here -- a permuted per-window result is still
+                                    # "the non-framewise result on that window"
+                                    stats.inc("probe.evaluate_frames_differ_from_framewise_default")
     return {"violations": violations, "stats": stats.dump(), "log_digest": log.digest(), "n_events": log.n,
             "log_events": log.events if want_logs else None}
 
